@@ -305,7 +305,9 @@ def stepConc (st : St) (conc : Option ConcSt) (ws : List String) : Option (St ×
       match conc, natList? ids with
       | some cs, some ids =>
           let cs' := finishAll 400 (ids.foldl release cs) ids.getLast?
-          some (st, some cs', showFinal cs')
+          -- the sequential protocol continues on a fresh wrapper instance over what the run left
+          let w' : W := { flavor := st.w.flavor, be := cs'.c.be, nextId := cs'.c.nextId }
+          some ({ st with w := w', calls := st.calls + cs'.c.clock + 1 }, some cs', showFinal cs')
       | _, _ => none
   | _ => none
 
